@@ -26,7 +26,7 @@ func URLClassW(v string) (kind, scheme string) {
 		case i > 0 && (c >= '0' && c <= '9' || c == '+' || c == '-' || c == '.'):
 			continue
 		case i > 0 && c == ':':
-			return "scheme", strings.ToLower(s[:i])
+			return "scheme", asciiLower(s[:i])
 		}
 		break
 	}
